@@ -212,6 +212,42 @@ def Seg.withNewHigh (s : Seg) (v : Nat) : Option (Option Seg) :=
         | .sorted l => .sorted (l ++ [v])
         | .array l => .array (l ++ [v])))
 
+/-! ## EncodedU64Array (the physical encoding behind the `SortedArray` / `Array` / holes payloads) -/
+
+/-- encoded_array.rs `enum EncodedU64Array` -/
+inductive Enc where
+  | u16 (base : Nat) (offsets : List Nat)
+  | u32 (base : Nat) (offsets : List Nat)
+  | u64 (values : List Nat)
+  deriving Repr, DecidableEq
+
+/-- encoded_array.rs `impl From<Vec<u64>> for EncodedU64Array` -/
+def Enc.ofList (vals : List Nat) : Enc :=
+  match listMin vals, listMax vals with
+  | some mn, some mx =>
+    if mx - mn ≤ 65535 then .u16 mn (vals.map (· - mn))
+    else if mx - mn ≤ 4294967295 then .u32 mn (vals.map (· - mn))
+    else .u64 vals
+  | _, _ => .u64 []
+
+/-- encoded_array.rs `EncodedU64Array::iter` -/
+def Enc.toList : Enc → List Nat
+  | .u16 b o => o.map (b + ·)
+  | .u32 b o => o.map (b + ·)
+  | .u64 v => v
+
+/-- encoded_array.rs `EncodedU64Array::get` -/
+def Enc.get : Enc → Nat → Option Nat
+  | .u16 b o, i => o[i]?.map (b + ·)
+  | .u32 b o, i => o[i]?.map (b + ·)
+  | .u64 v, i => v[i]?
+
+/-- the offsets fit their width -/
+def Enc.Fits : Enc → Prop
+  | .u16 _ o => ∀ x ∈ o, x ≤ 65535
+  | .u32 _ o => ∀ x ∈ o, x ≤ 4294967295
+  | .u64 _ => True
+
 /-! ## RowIdSequence -/
 
 /-- rowids.rs `struct RowIdSequence(Vec<U64Segment>)` -/
